@@ -687,15 +687,15 @@ P_L, P_O = (300, 0), (0, 480)
 
 
 def alphabet(thorough):
-    ops = [("on",), ("off",), ("create", 0, 0, [7]), ("join", A), ("cancel",), ("jfail",), ("leave", 0), ("brk", 1), ("brk", CPM),
+    ops = [("on",), ("off",), ("create", 0, 0, [7]), ("join", A), ("cancel",), ("jfail",), ("leave", 0), ("brk", CPM),
            ("upd",),
            ("recv", (LDR, P_L)), ("recv", (OTH, P_O)),
            ("recv", (LDR, P_L, (A, 2, "c"))), ("recv", (OTH, P_O, (A, 3, "o"))),
-           ("recv", (OTH, P_O, None, (7, None, None))), ("recv", (OTH, P_O, None, (None, 7, None))),
+           ("recv", (OTH, P_O, None, (7, None, None))),
            ("recv", (LDR, P_L, (A, 2, "c"), (None, None, 1))), ("recv", (LDR, P_L, (A, 2, "c"), (None, None, CPM))),
            ("recv", (OTH, P_O, None, (None, None, 2)))]
     if thorough:
-        ops += [("create", 1000, 0, [A, 7]), ("join", 0), ("leave", 8),
+        ops += [("brk", 1), ("recv", (OTH, P_O, None, (None, 7, None))), ("create", 1000, 0, [A, 7]), ("join", 0), ("leave", 8),
                 ("recv", (23, (300, 380))), ("recv", (OTH, P_O, (7, 1, "a"))), ("recv", (LDR, P_L, (None, 1, "c"))),
                 ("recv", (LDR, P_L, None, (None, None, 1))), ("recv", (23, (300, 380), None, (7, 7, None)))]
     return ops
@@ -1074,7 +1074,7 @@ def run_corpus(ctx, var, batch):
         n += 1
         bad = replay_case(ctx, case, var, quiet=True, batch=batch)
         for kind, detail in bad:
-            fid = classify(kind, detail) or case.get("finding") or REGRESSION_OF.get(kind)
+            fid = classify(kind, detail) or REGRESSION_OF.get(kind)   # never the label stored in the corpus file
             ctx.violation(f"corpus {name}: {kind}: {detail}", dict(case, expect=kind), fid)
     ctx.cover("corpus_cases", n)
 
@@ -1112,14 +1112,15 @@ def run(ctx):
         run_corpus(ctx, var, batch)
         # (i) exhaustive
         alpha = alphabet(ctx.thorough)
-        jobs = [{"root": r, "depth": ctx.scale(2, 3), "cap": 10 ** 9, "exact": True} for r in ROOTS] + \
-               [{"root": r, "depth": ctx.scale(5, 7), "cap": ctx.scale(1500, 5000), "exact": False} for r in ROOTS]
+        deep = ("fresh", "waiting", "passive")
+        jobs = [{"root": r, "depth": 3 if (ctx.thorough and r in deep) else 2, "cap": 10 ** 9, "exact": True} for r in ROOTS] + \
+               [{"root": r, "depth": ctx.scale(5, 7), "cap": ctx.scale(1500, 2000), "exact": False} for r in ROOTS]
         explore(ctx, var, jobs, alpha)
         for j in jobs:
             ctx.cover(f"exhaustive_edges_{'exact' if j['exact'] else 'ctrl'}_{j['root']}", j["edges"])
         ctx.exhaustive = all(j["complete"] for j in jobs if j["exact"]) and ctx.model_ok
         ctx.note(f"exhaustive: alphabet {len(alpha)} ops x {len(TICKS)} clock steps from {len(ROOTS)} roots; complete enumeration "
-                 f"(exact state quotient) to depth {ctx.scale(2, 3)}; control-state pruned exploration to depth {ctx.scale(5, 7)} "
+                 f"(exact state quotient) to depth 2{' (3 from fresh/waiting/passive)' if ctx.thorough else ''}; control-state pruned exploration to depth {ctx.scale(5, 7)} "
                  f"(frontier cap {'not hit' if all(j['complete'] for j in jobs) else 'hit: sampled beyond the cap'})")
         # random sequences
         for i in range(ctx.scale(24, 300)):
